@@ -58,7 +58,12 @@ type c09Case struct {
 	Proto  bool    `json:"start_in_protobuf_mode"`
 	Ops    []c09Op `json:"ops"`
 	KillAt int     `json:"kill_after_acks,omitempty"`
+	// Offset is robust.MessageOffset for this case: 0 as in the package's own tests, or the flag
+	// default of a real node (ids of id-less messages default to offset + raft index)
+	Offset uint64 `json:"message_offset,omitempty"`
 }
+
+var c09Offsets = []uint64{0, 4648398125000000000}
 
 func (e c09Entry) raftLog() *raft.Log {
 	l := &raft.Log{Index: e.Index, Term: e.Term, Type: raft.LogType(e.Type), Data: e.Data, Extensions: e.Ext}
@@ -294,6 +299,7 @@ func c09Run(c c09Case, dir string) (f *vh.Failure) {
 			f = vh.Failf("store-panic", "panic: %v", r)
 		}
 	}()
+	robust.MessageOffset = c.Offset
 	protoMode := c.Proto
 	s, err := NewLevelDBStore(dir, true, protoMode)
 	if err != nil {
@@ -543,7 +549,7 @@ func TestVerifC09(t *testing.T) {
 		return
 	}
 	rapid.Check(t, func(rt *rapid.T) {
-		c := c09Case{Proto: rapid.Bool().Draw(rt, "protomode")}
+		c := c09Case{Proto: rapid.Bool().Draw(rt, "protomode"), Offset: rapid.SampledFrom(c09Offsets).Draw(rt, "message_offset")}
 		c.Ops = genOps(rt, rapid.IntRange(3, 40).Draw(rt, "nops"), true, c.Proto)
 		nt, labels := c09Nontrivial(c)
 		rec.Case(vh.Fingerprint(c), nt, labels, func() interface{} { return c })
@@ -576,6 +582,7 @@ func TestVerifC09Child(t *testing.T) {
 	}
 	dir := os.Getenv("VERIF_C09_DIR")
 	protoMode := c.Proto
+	robust.MessageOffset = c.Offset
 	s, err := NewLevelDBStore(dir, true, protoMode)
 	if err != nil {
 		fmt.Println("childerror", err)
@@ -639,6 +646,7 @@ func c09KillRun(c c09Case, dir string) *vh.Failure {
 		return vh.Failf("harness", "child ended after %d acks, wanted %d", acked, c.KillAt)
 	}
 	// the store must equal the model after m operations for some m >= acked
+	robust.MessageOffset = c.Offset
 	protoMode := c.Proto
 	models := []*c09Model{}
 	modes := []bool{}
@@ -712,7 +720,7 @@ func TestVerifC09Kill(t *testing.T) {
 		return
 	}
 	rapid.Check(t, func(rt *rapid.T) {
-		c := c09Case{Proto: rapid.Bool().Draw(rt, "protomode")}
+		c := c09Case{Proto: rapid.Bool().Draw(rt, "protomode"), Offset: rapid.SampledFrom(c09Offsets).Draw(rt, "message_offset")}
 		c.Ops = genOps(rt, rapid.IntRange(3, 30).Draw(rt, "nops"), true, c.Proto)
 		c.KillAt = rapid.IntRange(1, len(c.Ops)).Draw(rt, "killat")
 		nt, labels := c09Nontrivial(c)
